@@ -6,12 +6,17 @@ import random
 from .registry import bounded, replayer
 
 
-def _neg(msg_size, families):
-    from exabgp.bgp.message.open.capability.negotiated import Negotiated
+def _neg(msg_size, families, addpath=False):
+    from exabgp.bgp.message.open.capability.negotiated import Negotiated, RequirePath
     from exabgp.bgp.message.open.asn import ASN
 
     neg = copy.copy(Negotiated.UNSET)
     neg.families = list(families)
+    if addpath:
+        # ADD-PATH negotiated for sending: every NLRI is 4 bytes longer on the wire than it is stored
+        neg.addpath = RequirePath()
+        neg.addpath._send = {f: True for f in families}
+        neg.addpath._receive = {f: True for f in families}
     neg.local_as = ASN(65000)
     neg.peer_as = ASN(65000)
     neg.msg_size = msg_size
@@ -43,15 +48,15 @@ def _collection(padlen, v4, v6, w4, w6, v4nh6=(), w6m=()):
     return UpdateCollection(ann, wd, attrs)
 
 
-def _case(msg_size, padlen, v4, v6, w4, w6, v4nh6=(), w6m=()):
+def _case(msg_size, padlen, v4, v6, w4, w6, v4nh6=(), w6m=(), addpath=False):
     """returns None or a failure dict"""
     from spec.update import decode_update
     from exabgp.protocol.family import AFI, SAFI
     import socket
 
-    neg = _neg(msg_size, [(AFI.ipv4, SAFI.unicast), (AFI.ipv6, SAFI.unicast), (AFI.ipv6, SAFI.multicast)])
+    neg = _neg(msg_size, [(AFI.ipv4, SAFI.unicast), (AFI.ipv6, SAFI.unicast), (AFI.ipv6, SAFI.multicast)], addpath)
     u = _collection(padlen, v4, v6, w4, w6, v4nh6, w6m)
-    inp = {'msg_size': msg_size, 'padlen': padlen, 'v4': v4, 'v6': v6, 'w4': w4, 'w6': w6, 'v4nh6': list(v4nh6), 'w6m': list(w6m)}
+    inp = {'msg_size': msg_size, 'padlen': padlen, 'v4': v4, 'v6': v6, 'w4': w4, 'w6': w6, 'v4nh6': list(v4nh6), 'w6m': list(w6m), 'addpath': addpath}
     try:
         msgs = [bytes(m) for m in u.messages(neg)]
     except Exception as e:  # noqa
@@ -62,7 +67,7 @@ def _case(msg_size, padlen, v4, v6, w4, w6, v4nh6=(), w6m=()):
         if len(m) > msg_size:
             return {'what': f'UPDATE of {len(m)} bytes on a {msg_size} session', 'input': inp, 'sizes': [len(x) for x in msgs]}
         try:
-            d = decode_update(m)
+            d = decode_update(m, (lambda a, s_: True)) if addpath else decode_update(m)
         except (AssertionError, ValueError, IndexError) as e:
             return {'what': f'generated UPDATE does not parse on its own: {e}', 'input': inp}
         has_attrs = any(t != 14 and t != 15 for _, t, _ in d['attributes'])
@@ -137,6 +142,13 @@ def sizes(tier, seed):
                 f = _case(msg_size, padlen, *sh)
                 if f:
                     fails.append(f)
+                # the same with ADD-PATH negotiated for sending (wire form 4 bytes longer per NLRI than the stored form)
+                sh2 = tuple(sh) + ((),) * (6 - len(sh))
+                evals += 1
+                distinct.add((msg_size, room, str(sh), 'addpath'))
+                f = _case(msg_size, padlen, *sh2, addpath=True)
+                if f:
+                    fails.append(f)
                 if len(samples) < 3 and room == 5:
                     samples.append({'msg_size': msg_size, 'padlen': padlen, 'v4': sh[0][:2], 'v6': sh[1][:2]})
     return {'evaluations': evals, 'distinct_nontrivial': len(distinct), 'bound': 'room left after the attributes from -4..71 bytes x 2 maximum sizes x 6 (quick) / 10 (thorough) route-set shapes, IPv4 + IPv6 unicast', 'rule': 'one case = (max size, room, announce/withdraw sets); distinct by construction', 'samples': samples, 'failures': fails}
@@ -146,4 +158,4 @@ def sizes(tier, seed):
 def _replay(f):
     i = f['input']
     conv = lambda l: [tuple(x) for x in l]
-    return _case(i['msg_size'], i['padlen'], conv(i['v4']), conv(i['v6']), conv(i['w4']), conv(i['w6']), conv(i.get('v4nh6', [])), conv(i.get('w6m', []))) is None
+    return _case(i['msg_size'], i['padlen'], conv(i['v4']), conv(i['v6']), conv(i['w4']), conv(i['w6']), conv(i.get('v4nh6', [])), conv(i.get('w6m', [])), i.get('addpath', False)) is None
